@@ -340,6 +340,28 @@ def manual_specs() -> list[dict]:
                     out.append(dict(base, name=f"manual{n}", seed=900 + n, levels=[dict(l) for l in levels], sprout=dict(sprout), gsc=dict(gsc),
                                     drive=drive, hibernation=hib, reports=(n % 2 == 0), fn=["multi", "funnels", "plateau"][n % 3],
                                     maximize=(n % 5 == 0), idlecheck=False))
+    # the two halves of a step called separately (test/test_gsc.py drives trees like this): the counter stays frozen
+    gscs = [{"kind": "SingularEvalLimit", "n": 150}, {"kind": "AllStopped"}, {"kind": "MetaepochLimit", "n": 3}]
+    sprouts = [{"kind": "simple", "far": 0.05, "limit": 3}, {"kind": "nbc", "gen": 1.0, "trunc": 1.0, "fil": 0.5, "limit": 3},
+               {"kind": "simple", "far": 0.3, "limit": 2, "norm": 1}]
+    engines = ["SEA", "DE", "SHADE", "CMA"]
+    for k in range(12):
+        child = engines[k % 4]
+        lv1 = {"engine": child, "gens": 2, "lsc": {"kind": "MetaepochLimit", "n": 2 + k % 3}}
+        if child != "CMA":
+            lv1["pop"] = 6
+        if child == "SHADE":
+            lv1["mem"] = 3
+        levels = [{"engine": ["SEA", "DE", "SHADE"][k % 3], "pop": 8, "gens": 1 + k % 2}, lv1]
+        if k % 4 == 3:
+            levels[1] = {"engine": "SEA", "pop": 5, "gens": 1, "lsc": {"kind": "MetaepochLimit", "n": 3}}
+            levels.append({"engine": "LOCAL", "maxiter": 2})
+        if levels[0]["engine"] == "SHADE":
+            levels[0]["mem"] = 3
+        n += 1
+        out.append(dict(base, name=f"manual{n}", seed=900 + n, levels=levels, sprout=dict(sprouts[k % 3]), gsc=dict(gscs[k % 3]),
+                        drive=["phases", 5 + k % 3] + (["direct"] if k % 2 == 0 or k == 11 else []), hibernation=(k % 4 in (1, 2)), reports=(k % 3 == 0), fn=["multi", "funnels", "sphere"][k % 3],
+                        maximize=(k % 5 == 0), idlecheck=False))
     return out
 
 
